@@ -344,7 +344,7 @@ pub fn gen_session(out: &mut Out, rng: &mut Rng, cfg: &HistCfg) {
                 1 => out.req("invalid", format!("drop_table {}", hex_of_str("_Tables"))),
                 2 => out.req("invalid", format!("drop_table {}", hex_of_str("Missing"))),
                 3 => out.req("invalid", format!("create_table {} {}", hex_of_str(&t), ColDef::new("K", CT::I16).tok().replace(":-:-:-:-:-", ":K:-:-:-:-"))),
-                4 => out.req("invalid", format!("create_table {} {}", hex_of_str("9bad"), "4b:i16:K:-:-:-:-")),
+                4 => out.req("invalid", format!("create_table {} {}", hex_of_str(*rng.pick(&["9bad", "_StringPool", "_StringData", "_Tables"])), "4b:i16:K:-:-:-:-")),
                 5 => out.req("invalid", format!("delete {} eq C{} I1", hex_of_str(&t), hex_of_str("Nope"))),
                 6 => out.req("invalid", format!("stream_remove {}", hex_of_str("no such stream"))),
                 _ => out.req("invalid", format!("create_table {} {}", hex_of_str(&"T".repeat(40)), "4b:i16:K:-:-:-:-")),
